@@ -53,6 +53,10 @@ CHECKS = {
    text="TLA+ spec Congestion: one action per call of the congestion controller carrying the observed window; the clauses (window between 2 packets and maximum + 1 packet, shrinks only on loss / RTO / migration and at most once per window of packets, never on an acknowledgement, grows only while window-limited, CanSend / SendMode release new data only below the window, every pacing budget within the token bucket min(burst, left over + 1.25 x bandwidth x elapsed)) are invariants. TLC checks them on a reference sender (abstract Reno, every ack / loss order, MTU increase, RTO, migration) and checks on PacerBucket that the per-call bucket bound implies the any-interval bound. TLC enumerates every 3-event history after three preludes (fresh / floor / congestion avoidance) for Reno and CUBIC and several datagram sizes; seeded walks add bursts, app-limited periods, clocks stepping back and to 2^61, RTT samples from 1 ns to 10 s; a scripted history reaches the 10000-packet maximum in congestion avoidance (25M acks). A second tier records the controller's calls as made by the real sentPacketHandler and its SendMode. All traces validated by TLC.",
    note="Trusted: TLC, harness bookkeeping of bytes in flight in the component tier (the handler tier uses the handler's own), exact big-integer pre-computation of the two pacer products (TLC integers are 32 bit; saturating at 2^29 = no claim). HyStart's exit decision and PTO arithmetic are left open. Two defects found and fixed (5e969a6, 25a4f5e).",
    technique="TLA+ model checking (TLC) + TLC-enumerated / seeded histories replayed into the real code at two tiers + TLC trace validation"),
+ "C19": dict(engine="FieldSection", design="5 C19",
+   text="TLA+ spec FieldSection: declarative WellFormed (lower-case token names, no forbidden value bytes, no connection-specific fields, TE only trailers, pseudo-header fields known / unique / ahead of regular fields / of the kind allowed for a request, response or trailer, content-length single-valued numeric, decoded size within the limit) and an incremental acceptor (one step per decoded field); TLC proves them equivalent for every sequence of <= 4 field classes, all section kinds and limits around the size. TLC enumerates every sequence of 3 (4) field letters; each is instantiated with concrete bytes and handed to the real requestFromHeaders / parseHeaders / updateResponseFromHeaders / parseTrailers through a decode function, with limits at and one below the section size; every pulled field (classified by the harness's own classifier) and the verdict / error class are validated by TLC. Writer tier: TLC enumerates header maps in every key spelling x request / response shapes; the real request and response writers' output is decoded independently, validated as a field section and parsed back (accepted and same fields).",
+   note="Trusted: TLC, the harness classifier (RFC 9110 tokens, NUL/CR/LF), github.com/quic-go/qpack as independent decoder of the writers' output. Control bytes other than NUL/CR/LF and an empty content-length are not judged. The mapping error -> stream error code is checked at the error-class level (errHeaderTooLarge vs other), not on a live connection. Four defects found and fixed (c23d9a1 and following).",
+   technique="TLA+ model checking (TLC: equivalence of incremental and declarative definitions) + TLC-enumerated field sequences replayed into the real parser / writers + TLC trace validation"),
 }
 NA = {}
 
